@@ -522,6 +522,13 @@ func init() {
 			}
 		}
 		rec()
+		// the same search from a non-initial state (both jobs discovered and tracked)
+		prefix := []c17Op{{Kind: "update", U: map[string]int{"A": 2, "B": 1}}}
+		seq = append([]c17Op{}, prefix...)
+		depth += len(prefix)
+		rec()
+		depth -= len(prefix)
+		seq = nil
 		r.Counters["sequential_histories"] = r.States
 		// (b) schedules
 		bound := 2
